@@ -21,14 +21,14 @@ def check(chk: Check) -> None:
     F = chk.facts
     R1 = chk.rule('C15.R1', 'layout tokens vanish: space and tab are ignored, comments emit nothing and end at the line break, '
                             'the line-break rule returns a separator iff the text is `;` or the bracket depth is 0, every '
-                            'bracket rule moves the depth by exactly one and returns its token', floor=12)
+                            'bracket rule moves the depth by exactly one and returns its token', floor=8)
     R2 = chk.rule('C15.R2', '`;`, newline, CRLF and blank statements: one separator terminal, one sequencing production, an '
-                            'empty statement alternative, and empty lines contribute nothing to the statement list', floor=4)
-    R3 = chk.rule('C15.R3', 'trailing comma: sibling alternatives agree - `... X , CLOSE` builds the same tree as `... X CLOSE`', floor=5)
+                            'empty statement alternative, and empty lines contribute nothing to the statement list', floor=3)
+    R3 = chk.rule('C15.R3', 'trailing comma: sibling alternatives agree - `... X , CLOSE` builds the same tree as `... X CLOSE`', floor=2)
     R4 = chk.rule('C15.R4', 'trailing comma: accepted for every arity - the token skeleton OPEN item (, item)* , CLOSE reaches '
-                            'accept in the LALR automaton for each bracketed-list construct', floor=15)
+                            'accept in the LALR automaton for each bracketed-list construct', floor=6)
     R5 = chk.rule('C15.R5', 'redundant parentheses: the group production returns the inner tree itself and is never part of a conflict', floor=1)
-    R6 = chk.rule('C15.R6', 'three spellings of one call: r.f(args), r | f(args) and f(r, args) build the same call node', floor=4)
+    R6 = chk.rule('C15.R6', 'three spellings of one call: r.f(args), r | f(args) and f(r, args) build the same call node', floor=2)
     chk.decided += ['every clause, on the three artefacts that determine it: lexer specification, grammar alternatives/automaton, action templates']
     chk.trusted += ['PLY builds its master regex as documented (function rules in definition order, string rules by decreasing length, re.VERBOSE)']
     g = C.grammar(F)
@@ -160,6 +160,7 @@ def check(chk: Check) -> None:
         chk.notes.append('only %d trailing-comma constructs found' % len(pairs))
     raising = {t.prod.index for t in TP.all() if t.raises is not None}
     short = lalr.shortest_expansions(g, skip=raising)
+    ctxs = lalr.contexts(g, short)
     maxn = 6 if chk.tier == 'thorough' else 3
     nts = set(g.nonterminals)
     for plain, comma in pairs:
@@ -182,7 +183,8 @@ def check(chk: Check) -> None:
                 body += item
             for with_comma in (True, False):
                 toks = prefix + body + ([sep] if with_comma else []) + [comma.rhs[-1]]
-                toks = wrap_statement(g, comma.lhs, toks, short)
+                pre, suf = ctxs.get(comma.lhs, ((), ()))
+                toks = list(pre) + toks + list(suf)
                 okk, why, reduced = lalr.simulate(T, toks)
                 want = comma.index if with_comma else plain.index
                 good = okk and want in reduced
